@@ -208,6 +208,19 @@ class Gen:
             if ok:
                 self.dvs.append({"b": b, "off": ov, "len": ln})
 
+    def hexstr(self, L):
+        """a hex string around 2·L characters: exact, shorter, longer, odd, with an invalid character, upper case"""
+        r = self.r
+        n = max(0, 2 * L + r.choice([0, 0, 0, -2, 2, 4, -4, 1, -1, 6]))
+        t = "".join(r.choice("0123456789abcdef") for _ in range(n))
+        c = r.random()
+        if c < 0.15 and n > 0:
+            i = r.randrange(n)
+            t = t[:i] + r.choice("gzGxX-._") + t[i + 1:]
+        elif c < 0.3:
+            t = t.upper()
+        return t or "-"
+
     def pick_view(self):
         return self.r.randrange(len(self.views))
 
@@ -222,8 +235,8 @@ class Gen:
 
     def op(self):
         r = self.r
-        choices = ["g", "p", "f", "c", "s", "a", "l", "u", "o", "r", "m", "X", "V", "D", "R", "T", "w", "t", "M", "O", "A", "Q", "k", "e", "J"]
-        weights = [6, 8, 10, 12, 10, 7, 10, 7, 5, 3, 5, 1, 4, 3, 2, 3, 4, 4, 8, 8, 3, 9, 4, 5, 3]
+        choices = ["g", "p", "f", "c", "s", "a", "l", "u", "o", "r", "m", "X", "V", "D", "R", "T", "w", "t", "M", "O", "A", "Q", "k", "e", "J", "hex"]
+        weights = [6, 8, 10, 12, 10, 7, 10, 7, 5, 3, 5, 1, 4, 3, 2, 3, 4, 4, 8, 8, 3, 9, 4, 5, 3, 6]
         if self.dvs:
             choices += ["G", "S"]
             weights += [8, 10]
@@ -238,6 +251,24 @@ class Gen:
             b = r.randrange(len(self.bufs))
             self.lines.append("X %d" % b)
             self.bufs[b]["det"] = True
+            return
+        if o == "hex":
+            # Uint8Array hex methods; prefer Uint8Array receivers, sometimes another kind (TypeError)
+            u8 = [i for i, w in enumerate(self.views) if w["k"] == "u8"]
+            vi = r.choice(u8) if u8 and r.random() < 0.85 else self.pick_view()
+            L = self.views[vi]["len"]
+            c = r.random()
+            if c < 0.25:
+                self.lines.append("h %d" % vi)
+            elif c < 0.85:
+                self.lines.append("H %d %s" % (vi, self.hexstr(L)))
+            else:
+                t = self.hexstr(r.randint(0, 6))
+                self.lines.append("x %s" % t)
+                if t == "-" or (len(t) % 2 == 0 and all(ch in "0123456789abcdefABCDEF" for ch in t)):
+                    n = 0 if t == "-" else len(t) // 2
+                    self.bufs.append({"n": n, "det": False})
+                    self.views.append({"k": "u8", "b": len(self.bufs) - 1, "off": 0, "len": n})
             return
         if o == "A":
             b = r.randrange(len(self.bufs))
@@ -669,6 +700,25 @@ def search_cases():
             yield lines
 
 
+def hex_cases():
+    """toHex / setFromHex / fromHex on Uint8Array views (inner, tail, whole, empty) and on other kinds: string lengths
+    2L-2 .. 2L+4, odd lengths, an invalid character at every position of a string of length 2L+2"""
+    data = bytes((29 * i + 5) & 0xFF for i in range(8))
+    for vline, L in (("V u8 0 2 4", 4), ("V u8 0 5 3", 3), ("V u8 0 0 _", 8), ("V u8 0 8 0", 0), ("V u8c 0 0 4", 4), ("V i8 0 0 4", 4), ("V u16 0 0 2", 2)):
+        lines = ["N", "B " + data.hex(), vline, "h 0"]
+        for n in sorted({max(0, 2 * L + d) for d in (-2, -1, 0, 1, 2, 3, 4)}):
+            t = "".join("0123456789abcdef"[(7 * i + n) % 16] for i in range(n)) or "-"
+            lines += ["H 0 %s" % t, "h 0"]
+            if n:
+                lines.append("H 0 %s" % t.upper())
+        n = 2 * L + 2
+        base = "".join("fedcba9876543210"[i % 16] for i in range(n))
+        for i in range(n):
+            lines += ["H 0 %s" % (base[:i] + "g" + base[i + 1:]), "h 0"]
+        lines += ["x %s" % base, "x %s" % (base + "0"), "x %sZ%s" % (base[:3], base[4:]), "x -", "X 0", "h 0", "H 0 00"]
+        yield lines
+
+
 VISIT = ["every", "some", "find", "findIndex", "findLast", "findLastIndex", "forEach", "reduce", "reduceRight", "values", "entries"]
 
 FLAG_RE = re.compile(r"\b(CANARY|POSTDETACH|ALIAS-VIEW|ALIAS|PROTOHIT)!(\d+)")
@@ -842,6 +892,8 @@ def view_kinds(lines, outs):
                 kinds.append(kinds[int(w[4].split("!")[0])] if (w[0] == "t" and len(w) > 4 and w[4] != "_") else kinds[int(w[1])])
             except (IndexError, ValueError):
                 kinds.append("?")
+        elif w[0] == "x":
+            kinds.append("u8")
         elif w[0] == "M":
             try:
                 kinds.append(kinds[int(w[1])] if w[2] == "_" else kinds[int(w[2].split("!")[0])])
@@ -962,8 +1014,9 @@ def report(ctx, runner, failures, limit=8):
     return unprocessed
 
 
-EXTRA_AUDIT = ["GojaModel.C17.Refine", "GojaModel.C17.Overlap", "GojaModel.C17.Sort", "GojaModel.C17.Float32", "GojaModel.C17.Bytes"]
-EXTRA_AUDIT_MIN = 115
+EXTRA_AUDIT = ["GojaModel.C17.Refine", "GojaModel.C17.Overlap", "GojaModel.C17.Sort", "GojaModel.C17.Float32", "GojaModel.C17.Bytes",
+               "GojaModel.C17.HexProps", "GojaModel.C17.TieHex", "GojaModel.C17.SortPerm", "GojaModel.C17.SpeciesBytes", "GojaModel.C17.FilterBytes", "GojaModel.C17.FreshBytes", "GojaModel.C17.Witness"]
+EXTRA_AUDIT_MIN = 180
 
 
 def audit_extra(ctx):
@@ -997,7 +1050,7 @@ def main(ctx):
     th = threading.Thread(target=lambda: hres.setdefault("h", ctx.go_build()))
     th.start()
     regen_ok = ctx.regen()
-    ok, errs = ctx.lake_build(["GojaModel.C17.Props", "GojaModel.C17.Tie", "GojaModel.C17.Bytes", "model_c17"])
+    ok, errs = ctx.lake_build(["GojaModel.C17.Props", "GojaModel.C17.Tie", "GojaModel.C17.Bytes", "GojaModel.C17.HexProps", "GojaModel.C17.TieHex", "GojaModel.C17.SortPerm", "GojaModel.C17.Witness", "model_c17"])
     ctx.log("lake build done (ok=%s)" % ok)
     ta = []
     if ok:
@@ -1044,7 +1097,7 @@ def main(ctx):
     g1 = list(grid_ctor_cases(sizes))
     g2 = list(grid_dv_cases(dvsizes))
     g3 = list(codec_cases())
-    g4 = list(search_cases())
+    g4 = list(search_cases()) + list(hex_cases())
     ctx.stats["grid"] = {"ctor_cases": len(g1), "ctor_buffer_sizes": sizes, "dataview_cases": len(g2), "dataview_buffer_sizes": dvsizes,
                          "codec_cases": len(g3), "exhaustive": "constructors: every kind x every byteOffset 0..n+1 x every length 0..max+1 and absent; "
                          "DataView: every (byteOffset, byteLength) x 10 types x every index x both byte orders, for the listed buffer sizes"}
